@@ -253,6 +253,57 @@ pub fn seeds(u: &Universe, thorough: bool, only_small: bool, skips: &[crate::con
             let sk = skip_for(v.len());
             v.push(finish_seed(u, cfg, ops, removed, d, "full table", sk));
     }
+    // caches that went through grow / shrink cycles before the exploration starts
+    for (hk, variant) in [(HK::Spread, 0usize), (HK::Const, 0), (HK::Sip, 1), (HK::SameTag, 1), (HK::Spread, 2)] {
+        let cfg = Config { hk, cap: None, limit: usize::MAX };
+        let mut ops: Vec<Op> = vec![];
+        let ins = |ops: &mut Vec<Op>, r: std::ops::Range<usize>| {
+            for i in r {
+                ops.push(Op::InsertRaw { k: F0 + i as u16, vheap: filler_heap(i) });
+            }
+        };
+        let rem = |ops: &mut Vec<Op>, r: std::ops::Range<usize>| {
+            for i in r {
+                ops.push(Op::Remove { k: F0 + i as u16, b: i % 2 == 1 });
+            }
+        };
+        let removed: Vec<u32>;
+        match variant {
+            0 => {
+                // grow to 30, drop to 5, shrink, grow to 19, reserve, drop 4, shrink to 8
+                ins(&mut ops, 0..30);
+                rem(&mut ops, 3..28);
+                ops.push(Op::ShrinkToFit);
+                ins(&mut ops, 30..44);
+                ops.push(Op::Reserve { a: 2 });
+                rem(&mut ops, 30..34);
+                ops.push(Op::ShrinkTo { m: 2 });
+                removed = (3..28).map(|i| (F0 as usize + i) as u32).collect();
+            }
+            1 => {
+                // three doublings, clone, shrink of the nearly empty clone, refill
+                ins(&mut ops, 0..60);
+                ops.push(Op::CloneSwap);
+                rem(&mut ops, 0..57);
+                ops.push(Op::ShrinkToFit);
+                ins(&mut ops, 60..71);
+                removed = (0..57).map(|i| (F0 as usize + i) as u32).collect();
+            }
+            _ => {
+                // drain, refill, clear, refill past two growth steps, retain half
+                ins(&mut ops, 0..9);
+                ops.push(Op::Drain { pat: 1 });
+                ins(&mut ops, 9..24);
+                ops.push(Op::Clear);
+                ins(&mut ops, 24..40);
+                ops.push(Op::RetainMod { m: 2, r: 0 });
+                removed = (24..40).filter(|i| (F0 as usize + i) % 2 == 0).map(|i| (F0 as usize + i) as u32).collect();
+            }
+        }
+        crate::contain::set_phase(10 + v.len() as u64);
+        let sk = skip_for(v.len());
+        v.push(finish_seed(u, cfg, ops, removed, d, "cycled (grow / shrink / clone / drain cycles)", sk));
+    }
     // list-shape seeds of lengths 5 and 8 (iterator patterns are exhaustive there)
     for (hk, n) in [(HK::Spread, 5usize), (HK::Sip, 8)] {
         let cfg = Config { hk, cap: None, limit: usize::MAX };
